@@ -120,7 +120,12 @@ func TestWorker(t *testing.T) {
 		fmt.Fprintf(os.Stderr, "RUN prop=%s index=%d seed=%d\n", id, idx, seed)
 		tape := core.NewTape(seed)
 		tape.NoTrace = true
+		t0 := time.Now()
 		res := RunOne(t, prop, tape, RunOpts{Tier: tier})
+		if d := time.Since(t0); d > 400*time.Millisecond {
+			out.Probes["slow_runs_over_400ms"]++
+			fmt.Fprintf(os.Stderr, "SLOW index=%d ms=%d steps=%d status=%s\n", idx, d.Milliseconds(), res.Steps, res.Status)
+		}
 		res.Seed = seed
 		out.Runs++
 		out.Steps += int64(res.Steps)
